@@ -63,6 +63,9 @@ theorem resolveAssert_uf (st : Static) (d : Defs) (ctx : RCtx) (e : Expr) :
 theorem unfreeze_sym (d : Defs) (r : Nat) : d.unfreeze.sym r = d.sym r := rfl
 theorem unfreeze_setSym (d : Defs) (r : Nat) (x : SymDef) : d.unfreeze.setSym r x = (d.setSym r x).unfreeze := rfl
 
+theorem map_ite {α β} (c : Prop) [Decidable c] (f : α → β) (a b : Except String α) :
+    (if c then a else b).map f = if c then a.map f else b.map f := by split <;> rfl
+
 theorem resolveLabel_uf (st : Static) (d : Defs) (ctx : RCtx) (ref : Nat) :
     resolveLabel st d.unfreeze ctx ref = (resolveLabel st d ctx ref).map ufRes := by
   unfold resolveLabel
@@ -70,28 +73,92 @@ theorem resolveLabel_uf (st : Static) (d : Defs) (ctx : RCtx) (ref : Nat) :
   cases evalAddress d ctx ctx.canGuess with
   | error m => rfl
   | ok a =>
-    simp only [unfreeze_sym, unfreeze_setSym]
-    split
-    · rename_i h; rw [if_pos h]; rfl
-    · rename_i h; rw [if_neg h]; rfl
+    simp only [unfreeze_sym, unfreeze_setSym, map_ite]
+    rfl
 
 theorem resolveConstant_uf (st : Static) (d : Defs) (ctx : RCtx) (ref : Nat) (e : Expr) :
     resolveConstant st d.unfreeze ctx ref e = (resolveConstant st d ctx ref e).map ufRes := by
   unfold resolveConstant
   rw [resolverEval_view st (unfreeze_view d)]
-  simp only [unfreeze_sym, unfreeze_setSym]
-  split
-  · rfl
-  · cases resolverEval st d ctx {} e with
-    | error m => rfl
-    | ok x =>
-      obtain ⟨v, c⟩ := x
+  simp only [unfreeze_sym, unfreeze_setSym, map_ite]
+  cases resolverEval st d ctx {} e with
+  | error m => rfl
+  | ok x =>
+    obtain ⟨v, c⟩ := x
+    simp only [map_ite]
+    rfl
+
+theorem unfreeze_instr (d : Defs) (ref : Nat) :
+    d.unfreeze.instrs.getD ref default = { (d.instrs.getD ref default) with resolved := false } := by
+  simp only [Defs.unfreeze, List.getD_eq_getElem?_getD, List.getElem?_map]
+  cases d.instrs[ref]? <;> rfl
+
+theorem unfreeze_data (d : Defs) (ref : Nat) :
+    d.unfreeze.datas.getD ref default = { (d.datas.getD ref default) with resolved := false } := by
+  simp only [Defs.unfreeze, List.getD_eq_getElem?_getD, List.getElem?_map]
+  cases d.datas[ref]? <;> rfl
+
+theorem unfreeze_setInstr (d : Defs) (ref : Nat) (x : InstrDef) :
+    ({ d.unfreeze with instrs := d.unfreeze.instrs.set ref { x with resolved := false } } : Defs) =
+      ({ d with instrs := d.instrs.set ref x } : Defs).unfreeze := by
+  simp only [Defs.unfreeze, List.map_set]
+
+theorem unfreeze_setData (d : Defs) (ref : Nat) (x : DataDef) :
+    ({ d.unfreeze with datas := d.unfreeze.datas.set ref { x with resolved := false } } : Defs) =
+      ({ d with datas := d.datas.set ref x } : Defs).unfreeze := by
+  simp only [Defs.unfreeze, List.map_set]
+
+/-- an instruction that is not marked, in a pass that is not the first -/
+theorem resolveInstruction_uf (st : Static) (d : Defs) (ctx : RCtx) (ref : Nat)
+    (hr : (d.instrs.getD ref default).resolved = false) (hf : ctx.first = false) :
+    resolveInstruction st d.unfreeze ctx ref = (resolveInstruction st d ctx ref).map ufRes := by
+  unfold resolveInstruction
+  simp only [unfreeze_instr, hr, Bool.false_eq_true, if_false, (viewEq st (unfreeze_view d) evalFuel).renc]
+  cases resolveEncoding st d evalFuel ctx ((d.instrs.getD ref default).cands.map (·.m)) {} with
+  | error m => rfl
+  | ok x =>
+    obtain ⟨encs, reported⟩ := x
+    simp only [hf, Bool.and_false, Bool.false_and, Bool.false_eq_true, if_false]
+    cases hc : (encs.bind fun l => l.head?.map (·.2)) with
+    | none => rfl
+    | some e =>
       simp only
-      split
-      · rename_i h; rw [if_pos h]; rfl
-      · rename_i h; rw [if_neg h]
-        split
-        · rename_i h2; rw [if_pos h2]; rfl
-        · rename_i h2; rw [if_neg h2]; rfl
+      have := unfreeze_setInstr d ref { (d.instrs.getD ref default) with encoding := e }
+      simp only [hr] at this
+      simp only [this, map_ite]
+      rfl
+
+theorem dataStore_uf (st : Static) (d : Defs) (ctx : RCtx) (ref : Nat) (sliced : Option BI)
+    (hr : (d.datas.getD ref default).resolved = false) (hf : ctx.first = false) :
+    dataStore st d.unfreeze ctx ref sliced = (dataStore st d ctx ref sliced).map ufRes := by
+  unfold dataStore
+  simp only [unfreeze_data, hf, Bool.and_false, Bool.false_and, Bool.false_eq_true, if_false]
+  cases sliced with
+  | none => simp only [map_ite]; rfl
+  | some b =>
+    simp only
+    have := unfreeze_setData d ref { (d.datas.getD ref default) with encoding := b }
+    simp only [hr] at this
+    simp only [this, map_ite, hr]
+    rfl
+
+/-- a data element that is not marked, in a pass that is not the first -/
+theorem resolveData_uf (st : Static) (d : Defs) (ctx : RCtx) (ref : Nat) (sz : Option Nat) (e : Expr)
+    (hr : (d.datas.getD ref default).resolved = false) (hf : ctx.first = false) :
+    resolveData st d.unfreeze ctx ref sz e = (resolveData st d ctx ref sz e).map ufRes := by
+  unfold resolveData
+  simp only [unfreeze_data, hr, Bool.false_eq_true, if_false, resolverEval_view st (unfreeze_view d)]
+  cases resolverEval st d ctx {} e with
+  | error m => rfl
+  | ok x =>
+    obtain ⟨v, c⟩ := x
+    simp only
+    cases dataEnc (ctx.last || (d.datas.getD ref default).known) v with
+    | error m => rfl
+    | ok enc =>
+      simp only
+      cases dataCheck (ctx.last || (d.datas.getD ref default).known) sz enc with
+      | error m => rfl
+      | ok u => exact dataStore_uf st d ctx ref _ hr hf
 
 end Casm
